@@ -19,6 +19,10 @@ Definition V_DIVERGE : N := 2.
 Definition V_MALFORMED : N := 9.
 (* K-Q128: a query / form field of type u128 or i128 is refused whatever its value *)
 Definition V_K128 : N := 191.
+(* K-B128: a JSON body type with a u128 / i128 field in a position serde buffers
+   (behind flatten, in an untagged or internally tagged enum, or in an adjacently
+   tagged one whose content precedes its tag) is refused whatever the value *)
+Definition V_K128B : N := 194.
 
 (* run-length notation for long byte strings in case terms: the harness
    writes a value in which a unit of 1..80 bytes repeats as [rep n unit ++ ..];
@@ -72,6 +76,12 @@ Inductive ccase :=
      Section variable of the theorems) *)
 | CJson (ct : hdr) (cap : N) (frames : list str) (oracle : option named)
         (intended : option named) (rq : rinfo) (o : obs)
+  (* a JSON body whose type goes through serde's buffering (flatten, untagged /
+     internally / adjacently tagged enums with data).  The derived code for
+     such types is not modelled beyond the parser oracle: the specification
+     decides.  [buf128]: the value holds a 128-bit integer in a buffered position *)
+| CJsonB (buf128 : bool) (ct : hdr) (cap : N) (frames : list str) (oracle : option named)
+         (intended : option named) (rq : rinfo) (o : obs)
 | CRaw (streaming : bool) (ct : hdr) (cap : N) (frames : list str) (rq : rinfo) (o : obs)
 | CMultipart (ct : hdr) (cap : N) (frames : list str)
              (intended : option (str * list (str * str))) (rq : rinfo) (o : obs)
@@ -238,6 +248,16 @@ Definition judge (c : ccase) : N :=
             (match m with Ok (TJson v') => list_eqb named_eqb (echoed o) [v'] | _ => false end)
       | None => verdict_malformed o m
       end
+  | CJsonB buf128 ct cap frames oracle intended rq o =>
+      let m := extract_typed_body (oracle_fn oracle) CtJson [] ct cap frames in
+      match intended with
+      | Some v =>
+          let spec := spec_delivered o rq [v] None None in
+          if negb spec && buf128 && refused_cleanly o && negb (is_ok m) then V_K128B
+          else verdict_valid spec
+                 (match m with Ok (TJson v') => list_eqb named_eqb (echoed o) [v'] | _ => false end)
+      | None => verdict_malformed o m
+      end
   | CRaw streaming ct cap frames rq o =>
       let spec := spec_delivered o rq [] (Some (concat frames)) None in
       let model :=
@@ -320,7 +340,7 @@ Definition judge (c : ccase) : N :=
 Definition is_valid_stream (c : ccase) : bool :=
   match c with
   | CPath _ _ (Some _) _ _ | CQuery _ _ (Some _) _ _ | CForm _ _ _ _ (Some _) _ _
-  | CJson _ _ _ _ (Some _) _ _ | CRaw _ _ _ _ _ _ | CMultipart _ _ _ (Some _) _ _
+  | CJson _ _ _ _ (Some _) _ _ | CJsonB _ _ _ _ _ (Some _) _ _ | CRaw _ _ _ _ _ _ | CMultipart _ _ _ (Some _) _ _
   | CAll _ _ _ _ _ _ _ _ (Some _) _ _ | CLargeOk _ _ _ | CFloat _ _ (Some _) _ _ => true
   | _ => false
   end.
